@@ -32,7 +32,7 @@ from unyt.unit_registry import UnitRegistry
 RTOL_TOL = 1e-9  # LAPACK/FFT-backed templates and non-dyadic units
 SLOT_DIM = {"X": udims.length, "Y": udims.time, "W": udims.mass}
 SLOT_LETTER = {"X": "L", "Y": "T", "W": "M"}
-DY = {"1": 1.0, "p": 1.0 / 64, "q": 64.0}
+DY = {"1": 1.0, "p": 1.0 / 64, "q": 64.0, "h": 0.5}  # h: integer data are only doubled (products of 64s would leave int64)
 ORD = {
     "X": [("m", 1.0), ("cm", 0.01), ("km", 1000.0), ("mile", 1609.344)],
     "Y": [("s", 1.0), ("hr", 3600.0)],
@@ -237,7 +237,7 @@ def _at(tr, path):
 
 def dyadic_alts(t, dt, tier):
     sl = slots_of(t)
-    tags = ["1", "p"] if dt == "i" else ["1", "p", "q"]
+    tags = ["1", "h"] if dt == "i" else ["1", "p", "q"]
     out = []
     for combo in itertools.product(tags, repeat=len(sl)):
         if all(c == "1" for c in combo):
